@@ -1,5 +1,4 @@
 import Eliot.Proofs.SysLift
-import Eliot.Generated.Handlers
 /-!
 # C07 — logging never raises into, or alters, the application
 
@@ -179,18 +178,6 @@ theorem outcome_env_independent (env₁ env₂ : Env) (p : Block)
 /-- **exc_identity** (also C03): the exception leaving a `with` block is the one its body raised. -/
 theorem exc_identity (env : Env) (w : World) (h : Nat) (run : World → World × Outcome) :
     (withBlock env w h run).2 = (run { w with ctx := some h }).2 := rfl
-
-/-- **E5 (regenerated from /repo on every run)**: every callback call site of the output layer sits
-under the handler the model assumes: destinations under `except Exception`, everything else under a
-bare `except`. -/
-theorem skeleton_E5 : Generated.handlers = [
-    ("Destinations.send", "dest", "Exception"),
-    ("Destinations.send", "log_message", "bare"),
-    ("Logger.write", "serializer.serialize", "bare"),
-    ("_safe_unicode_dictionary", "dict", "bare"),
-    ("ErrorExtraction.get_fields_for_exception", "extractor", "bare"),
-    ("safeunicode", "str", "bare"),
-    ("saferepr", "repr", "bare")] := by decide
 
 /-! ## Non-vacuity: a failing action inside try/except, a broken destination, str() that raises -/
 def exEnv : Env where
